@@ -107,11 +107,13 @@ def run_cell(ctx, rng, sc, orders, cutoff=None, boundary_only=False):
     # these, so order-4 results must follow them exactly (normal failure key); generic rotations with order 4 are the known finding
     for nm_, Q in (("axes-cyclic", np.array([[0.0, 1, 0], [0, 0, 1], [1, 0, 0]])), ("axes-swap-flip", np.array([[0.0, 1, 0], [1, 0, 0], [0, 0, -1.0]])[[0, 1, 2]] * np.array([1.0, 1, 1])[:, None])):
         trs.append(("signedperm-" + nm_, L @ Q.T, X, Z, d @ Q.T, f @ Q.T, ("rot", Q)))
+    Q2 = np.diag([-1.0, 1.0, -1.0])           # the crystal turned by 180 degrees about y: an axis-aligned cell gets two negative diagonal entries
+    trs.append(("signedperm-flip-two", L @ Q2.T, X, Z, d @ Q2.T, f @ Q2.T, ("rot", Q2)))
     for imp in (False, True):
         Q = rand_rotation(rng, imp)
         trs.append(("rotation-" + ("improper" if imp else "proper"), L @ Q.T, X, Z, d @ Q.T, f @ Q.T, ("rot", Q)))
     if ctx.quick:
-        trs = trs[:4] + trs[5:8] + trs[-4:]
+        trs = trs[:4] + trs[5:8] + trs[-5:]
     if boundary_only:
         trs = []
         for fr in (1 / 2, 1 / 3, 1 / 4, 1 / 6, 1 / 8):
